@@ -260,7 +260,7 @@ func lxJudge(c *Ctx, j *Job, res *proto.Result) {
 }
 
 func checkC04(c *Ctx) {
-	c.Rep.Rule = "LuaLex.tla computes the LSP position of every occurrence of an identifier that follows up to MaxPrefix fragments on its line (string literals with escapes, BMP and astral characters, line continuation; long brackets incl. multi-line; long comments incl. multi-line and non-ASCII; tabs), for three line-ending styles and eleven kinds of entity (plain, unused, attributed and second-in-list locals, local and global functions, globals, parameters, numeric and generic loop variables); TLC enumerates all layouts; for each the real server is asked definition, references, highlight, rename at every occurrence, the outline, the workspace symbols and the diagnostics, and every range must lie in the document, have start <= end and, for a named entity, cover exactly the identifier at the position TLC computed; distinct = distinct layouts. Second family: Modules.tla workspaces (tables, member functions and fields, aliases, require/return over two files exhaustively to the item bound and three files simulated): definition, references, highlight and rename are asked at every table variable and member name; every returned range must start and end exactly at an identifier of its document, references/highlights/rename edits must be spelled like the identifier asked about, rename edits must not repeat and must include the position asked at"
+	c.Rep.Rule = "LuaLex.tla computes the LSP position of every occurrence of an identifier that follows up to MaxPrefix fragments on its line (string literals with escapes, BMP and astral characters, line continuation; long brackets incl. multi-line; long comments incl. multi-line and non-ASCII; tabs), for three line-ending styles and eleven kinds of entity (plain, unused, attributed and second-in-list locals, local and global functions, globals, parameters, numeric and generic loop variables); TLC enumerates all layouts; for each the real server is asked definition, references, highlight, rename at every occurrence, the outline, the workspace symbols and the diagnostics, and every range must lie in the document, have start <= end and, for a named entity, cover exactly the identifier at the position TLC computed; distinct = distinct layouts. Second family: Modules.tla workspaces (tables, member functions and fields, aliases, require/return over two files exhaustively to the item bound and three files simulated): definition, references, highlight and rename are asked at every table variable and member name; every returned range must start and end exactly at an identifier of its document, references/highlights/rename edits must be spelled like the identifier asked about, rename edits must not repeat and must include the position asked at. Third family: a seeded sample of ClassGraph.tla's annotation workspaces; go-to-definition on the type name of a ---@type line (in the file that declares the aliases and in another file) must answer ranges that lie in their document and cover exactly that name"
 	c.Rep.Assumptions = []string{
 		"the fragment texts are a table in the harness; at run time every reference position is checked against the harness's own LSP slicing of the rendered text (a disagreement aborts the run as a tooling fault)",
 		"outline ranges are only required to be well-formed and inside the document here (containment of the identifier is C19's subject)",
@@ -297,9 +297,92 @@ func checkC04(c *Ctx) {
 	if !modulesRuns(c, p, modBuild(c.Seed), func(j *Job, r *proto.Result) { modJudgeRanges(c, j, r) }) {
 		return
 	}
+	// third family: go-to-definition on the type name written in a ---@type annotation, for ClassGraph.tla's hierarchies
+	// (classes in up to three files, aliases in the main file, a use in yet another file)
+	{
+		cfg := fmt.Sprintf("CONSTANTS\n  Classes = {\"KA\",\"KB\",\"KC\"}\n  Level = %q\nINIT Init\nNEXT Next\nINVARIANTS Emit\nCHECK_DEADLOCK FALSE\n", c.Tier)
+		rate := uint64(8)
+		if c.Thorough() {
+			rate = 40
+		}
+		build := func(id int, raw json.RawMessage) *Job {
+			if hash64(string(raw), c.Seed)%rate != 0 {
+				return nil
+			}
+			jb := cgBuild(id, raw)
+			if jb == nil {
+				return nil
+			}
+			d := jb.Data.(*cgData)
+			use := "---@type " + d.tc.Ty + "\nlocal u = {}\nprint(u)\n"
+			files := map[string]string{}
+			for k, v := range d.files {
+				files[k] = v
+			}
+			files["use.lua"] = use
+			pc := &proto.Case{ID: id, Files: files, Init: json.RawMessage(allOnLocal)}
+			pc.Steps = append(pc.Steps, openStep("use.lua", use), openStep("main.lua", files["main.lua"]),
+				proto.Step{M: "textDocument/definition", P: posParams("use.lua", 0, 10)})
+			// the same question on the ---@type line of main.lua (the line before `local v = {}`)
+			ml := strings.Split(files["main.lua"], "\n")
+			for li, l := range ml {
+				if strings.HasPrefix(l, "---@type ") {
+					col := strings.Index(l, d.tc.Ty)
+					if col > 0 {
+						pc.Steps = append(pc.Steps, proto.Step{M: "textDocument/definition", P: posParams("main.lua", li, col+1)})
+					}
+				}
+			}
+			return &Job{PC: pc, Data: &anDefData{ty: d.tc.Ty, files: files}}
+		}
+		judge := func(j *Job, res *proto.Result) {
+			d := j.Data.(*anDefData)
+			c.Rep.Eval("andef:" + string(j.Raw))
+			if res.Crash != "" || res.Hang {
+				c.Rep.Violation(j.Raw, fmt.Sprintf("server died or hung (crash=%q) on an annotation workspace", res.Crash))
+				return
+			}
+			var prob []string
+			for si := 2; si < len(res.Steps); si++ {
+				locs, _ := projLocs(res.Root, res.Steps[si].Reply)
+				for _, l := range locs {
+					text, ok := d.files[l.File]
+					if !ok {
+						prob = append(prob, fmt.Sprintf("definition of type %s leads to %s, which is not a file of the workspace", d.ty, l.File))
+						continue
+					}
+					t, inDoc := rangeText(lspLines(text), l.SL, l.SC, l.EL, l.EC)
+					if !inDoc {
+						prob = append(prob, fmt.Sprintf("definition of type %s: range %d:%d-%d:%d lies outside %s", d.ty, l.SL, l.SC, l.EL, l.EC, l.File))
+					} else if t != d.ty {
+						prob = append(prob, fmt.Sprintf("definition of type %s: range %s %d:%d-%d:%d covers %q, not the type's name", d.ty, l.File, l.SL, l.SC, l.EL, l.EC, t))
+					}
+				}
+			}
+			if len(prob) == 0 {
+				return
+			}
+			sort.Strings(prob)
+			desc := strings.Join(uniq(prob), "; ") + "\n-- main.lua\n" + d.files["main.lua"] + "-- types1.lua\n" + d.files["types1.lua"]
+			if surveyMode {
+				sv.add("andef "+firstWords(prob[0], 8), desc)
+				return
+			}
+			c.Rep.Violation(j.Raw, desc)
+		}
+		if !c.streamRun("annotation_type_names", tlc.Run{Module: "ClassGraph", Workers: 4, Timeout: 30 * time.Minute, Cfg: cfg}, p, 8, build, judge) {
+			return
+		}
+	}
 	c.Rep.Exhaustive = true
 	c.poolStats(p)
 	if surveyMode {
 		sv.dump()
 	}
+}
+
+// anDefData: a ClassGraph workspace plus a file that uses the type name in an annotation.
+type anDefData struct {
+	ty    string
+	files map[string]string
 }
